@@ -31,6 +31,11 @@ CHECKS = {
          "Every single-block output length 0..4096 bits (quick: 0..520 and all boundary residues) with random, all-ones and all-zeros content is formatted in 19 format spellings and decoded by an independent decoder per format; multi-block outputs are sampled. Within the enumerated lengths the bit-carrying behaviour of each format is decided; contents are sampled.",
          "Decoders written from each format's public definition; Intel HEX block starts restricted to address-unit boundaries (all the format can express); outputs above 4096 bits (e.g. 16-bit Intel HEX address wrap) not explored.",
          "6/C11"),
+ "C06": ("exploration",
+         "model-based property testing of bank layouts (reference layout engine) + an invariant monitor (no overlap, inside bank window, zero gaps, length) on every successful assembly of the bank, instruction, cascade and corpus generators",
+         "Random search over bank configurations x item sequences aimed at every bank boundary against a reference layout model (accept/reject, every item's position/size/address, bits, length, labels), plus invariants checked on every success of the other generators and of the mutated corpus. Exploration of a sampled space (<= 5 banks, <= 14 items in the directed part).",
+         "Bank definitions are read back from the assembler's own defs for the invariant monitor (the directed part uses the generated definitions); span order = item order.",
+         "6/C06"),
  "C08": ("exploration",
          "metamorphic/differential property testing: the same job under the four optimisation-switch combinations x five iteration budgets must agree on success, bits and symbols",
          "Differential run of the real code against itself over generated (size-static and cascading) programs, the whole test corpus and token-mutated corpus programs. No model is trusted; exploration of a sampled program space.",
